@@ -1,13 +1,130 @@
-(* C09 (part 1, loops and recursion; the lexer theorems are appended below) -- placeholder header, replaced later *)
-From Coq Require Import List String Arith Bool.
-From NV Require Import Front.RecoveryLoops gen.ParserLoops.
+(* C09 -- the front end is total: every input ends in acceptance or a diagnostic.
+   Only property theorems here ([exact <lemma>], or vm_compute on closed generated data) + Print Assumptions.
+
+   What is proved, and about what:
+   (1) GENERIC: a cursor loop every iteration of which exits, moves the token cursor forward, or leaves the loop test
+       false terminates within ntokens + 2 iterations (C09_loop_terminates); a loop whose SUMMARY passes the progress rule
+       satisfies that hypothesis, whatever its body does within the summary (C09_summary_terminates); counted loops
+       (C09_counted_loop_terminates); a rank decreasing along call edges bounds call chains (C09_call_chain_bounded).
+   (2) ABOUT parser.c, by computation on NV.gen.ParserLoops (regenerated from the clang AST of /repo/src/parser.c on
+       every run by tools/gen/gen_parserloops.py -- rules in its header, trusted):
+       the loops that do NOT pass the rule are EXACTLY the loops listed as open findings (today: the two argument loops of
+       parse_prefix_op), all others progress; the cursor functions that lie on a recursion cycle NOT passing a depth guard
+       are EXACTLY the listed findings (today: parse_primary [unary chains], parse_if_expression [else-if chains],
+       parse_statement [nested unsafe], parse_type_with_element + parse_function_signature [nested types]); without them
+       the unguarded call graph is acyclic.  Closing a finding in known_findings.d/C09.json turns the corresponding
+       statement into the unrestricted one; a NEW non-progressing loop or unguarded cycle breaks the theorem.
+   (3) ABOUT the parser model (NV.Front.ExprParser, tied to the real parser by the C07 correspondence): the two inputs
+       behind the loop finding really do not terminate in the model: `(+ 1 else)` and 1001 nested `(+ 1 ..)` forms = Hang
+       (the second shows that nesting beyond the limit is NOT reported as an error on that path: _refuted).
+   (4) ABOUT the tokenizer model (NV.Front.Lexer, compared token for token with the real tokenize): total, every loop
+       iteration consumes a byte, exactly one EOF token at the end, at most one token per source byte.
+   PARTIAL: the parser as a whole is not modelled (only its loops / recursion structure and the expression fragment); the
+   type checker and import processing are exercised by the robustness runs only. *)
+From Coq Require Import List String Arith Bool NArith.
+From NV Require Import gen.Tokens gen.ParserConsts Front.RecoveryLoops gen.ParserLoops
+                       Front.ExprParser Front.ExprParserMono Front.ExprParserProofs Front.Lexer Front.LexerProofs.
 Import ListNotations.
 
+(* ---------------------------------------------------------------- (1) generic *)
+Theorem C09_loop_terminates :
+  forall (State : Type) (pos : State -> nat) (N : nat) (guard : State -> bool) (step : State -> option State),
+  (forall s, pos s <= N) ->
+  (forall s s', guard s = true -> step s = Some s' -> pos s < pos s' \/ guard s' = false) ->
+  forall s, loop State guard step (N + 2) s = None.
+Proof. exact loop_terminates_bound. Qed.
+Print Assumptions C09_loop_terminates.
+
+Theorem C09_summary_terminates :
+  forall (State : Type) (pos : State -> nat) (N : nat) (guard : State -> bool) (step : State -> option State),
+  (forall s, pos s <= N) ->
+  forall l, l_kind l = LCursor -> progresses l = true ->
+  (forall s, guard s = true -> exists p, In p (l_paths l) /\ sem State pos N p s (step s)) ->
+  (l_guard_excl_eof l = true -> forall s, pos s = N -> guard s = false) ->
+  forall s, loop State guard step (N + 2) s = None.
+Proof. exact summary_terminates. Qed.
+Print Assumptions C09_summary_terminates.
+
+Theorem C09_counted_loop_terminates : forall bound i,
+  loop nat (fun i => Nat.ltb i bound) (fun i => Some (S i)) (bound + 2) i = None.
+Proof. exact counted_loop_terminates. Qed.
+Print Assumptions C09_counted_loop_terminates.
+
+Theorem C09_call_chain_bounded : forall g r, ranks_ok g r = true ->
+  forall l x n, chain g (x :: l) -> rank_of r x = Some n -> List.length (x :: l) <= S n.
+Proof. exact chain_bounded. Qed.
+Print Assumptions C09_call_chain_bounded.
+
+(* ---------------------------------------------------------------- (2) parser.c, from the generated summaries *)
 Theorem C09_flagged_loops_are_the_listed_findings : keys_eqb (flagged parser_loops) listed_loop_findings = true.
 Proof. vm_compute. reflexivity. Qed.
+Print Assumptions C09_flagged_loops_are_the_listed_findings.
+
 Theorem C09_all_loops_progress : forallb progresses (without listed_loop_findings parser_loops) = true.
 Proof. vm_compute. reflexivity. Qed.
-Theorem C09_unguarded_recursion_is_the_listed_findings : strs_eqb (on_cycle parser_unguarded_calls) listed_cycle_findings = true.
+Print Assumptions C09_all_loops_progress.
+
+(* the translator classified every path of every loop *)
+Theorem C09_no_unclassified_path :
+  forallb (fun l => negb (existsb (fun p => match p with PUnknown => true | _ => false end) (l_paths l))) parser_loops = true.
 Proof. vm_compute. reflexivity. Qed.
-Theorem C09_all_cycles_guarded : acyclic (restrict (fun f => negb (mem f listed_cycle_findings)) parser_unguarded_calls) = true.
+Print Assumptions C09_no_unclassified_path.
+
+Theorem C09_unguarded_recursion_is_the_listed_findings :
+  strs_eqb (on_cycle parser_unguarded_calls) listed_cycle_findings = true.
+Proof. vm_compute. reflexivity. Qed.
+Print Assumptions C09_unguarded_recursion_is_the_listed_findings.
+
+Theorem C09_all_cycles_guarded :
+  acyclic (restrict (fun f => negb (mem f listed_cycle_findings)) parser_unguarded_calls) = true.
+Proof. vm_compute. reflexivity. Qed.
+Print Assumptions C09_all_cycles_guarded.
+
+(* hence: a chain of calls that never passes a depth guard, among the functions not listed, has at most as many links as
+   there are such functions *)
+Theorem C09_unguarded_chains_are_short :
+  let g := restrict (fun f => negb (mem f listed_cycle_findings)) parser_unguarded_calls in
+  forall l x n, chain g (x :: l) -> rank_of (kahn (List.length g) g []) x = Some n -> List.length (x :: l) <= S n.
+Proof. intro g. exact (chain_bounded g (kahn (List.length g) g []) C09_all_cycles_guarded). Qed.
+Print Assumptions C09_unguarded_chains_are_short.
+
+(* the depth guard and the loops it protects are where the model says *)
+Example C09_guarded_functions : depth_guarded = ["parse_block"; "parse_expression"]%string /\ MAX_RECURSION_DEPTH = 1000.
+Proof. vm_compute. split; reflexivity. Qed.
+
+(* ---------------------------------------------------------------- (3) the hanging inputs, in the parser model *)
+(* return (+ 1 else) : the argument loop of the prefix form spins *)
+Theorem C09_prefix_arg_loop_hangs :
+  parse [T K_LPAREN; T K_PLUS; Tok K_NUMBER b_1; T K_ELSE; T K_RPAREN] = Hang.
+Proof. vm_compute. reflexivity. Qed.
+Print Assumptions C09_prefix_arg_loop_hangs.
+
+(* nesting beyond MAX_RECURSION_DEPTH is reported for groups (C07_depth_limit_reported) but NOT for prefix forms: the
+   depth guard returns NULL inside the same argument loop *)
+Theorem C09_depth_limit_reported_refuted :
+  parse (pladder MAXD [Tok K_NUMBER b_1]) = Hang /\
+  (match parse (pladder (MAXD - 1) [Tok K_NUMBER b_1]) with Ok (Some _) [] false => true | _ => false end) = true.
+Proof. vm_compute. split; reflexivity. Qed.
+Print Assumptions C09_depth_limit_reported_refuted.
+
+(* ---------------------------------------------------------------- (4) the tokenizer *)
+Theorem C09_tokenize_total : forall src, tokenize src <> LFuel.
+Proof. exact tokenize_total. Qed.
+Print Assumptions C09_tokenize_total.
+
+Theorem C09_lexer_iteration_consumes : forall c t i line ls col r',
+  step_rest (lex_step c t i line ls col) = Some r' -> List.length r' <= List.length t.
+Proof. exact lex_step_shrinks. Qed.
+Print Assumptions C09_lexer_iteration_consumes.
+
+Theorem C09_tokenize_shape : forall src toks, tokenize src = LOk toks ->
+  exists body l c, toks = body ++ [LTok K_EOF None l c] /\ Forall (fun t => lk t <> K_EOF) body /\
+                   List.length body <= List.length src.
+Proof. exact tokenize_shape. Qed.
+Print Assumptions C09_tokenize_shape.
+
+Example C09_tokenize_example :
+  tokenize (bytes_of_string "x-1 'a'") =
+  LOk [LTok K_IDENTIFIER (Some [120%N]) 1 1; LTok K_NUMBER (Some [45%N; 49%N]) 1 2; LTok K_NUMBER (Some [57%N; 55%N]) 1 5;
+       LTok K_EOF None 1 5].
 Proof. vm_compute. reflexivity. Qed.
